@@ -98,20 +98,24 @@ def norm_ws(s):
     return s
 
 
-def find_blocks(text, masked, start, end, kinds=('impl', 'trait', 'mod')):
-    """Yield (header_text, open_brace_idx, close_brace_idx) for impl/trait/mod items between
-    start and end (top level of that region and nested mods)."""
-    pat = re.compile(r'\b(unsafe\s+)?(%s)\b' % '|'.join(kinds))
+def find_blocks(text, masked, start, end, kinds=('impl', 'trait')):
+    """Yield (header_text, open_brace_idx, close_brace_idx) for every impl/trait item between start and
+    end, at any nesting depth (so items inside `mod` blocks and `macro_rules!` bodies are found too)."""
+    pat = re.compile(r'\b(%s)\b' % '|'.join(kinds))
     i = start
     while True:
         m = pat.search(masked, i, end)
         if not m:
             return
-        # must be at item position: previous non-space char is one of ; } { ] or start, or `pub`, `)`
         k = m.start()
-        # find header end: first '{' or ';' at bracket depth 0 (angle brackets ignored)
+        # `impl Trait` in argument/return position is preceded by ':' '->' '(' ',' '<' '&' or '='
+        p = k - 1
+        while p >= 0 and masked[p] in ' \t\n':
+            p -= 1
+        if p >= 0 and masked[p] in ':>(,<&=':
+            i = m.end()
+            continue
         j = m.end()
-        depth = 0
         hdr_end = None
         while j < end:
             ch = masked[j]
@@ -120,18 +124,15 @@ def find_blocks(text, masked, start, end, kinds=('impl', 'trait', 'mod')):
             elif ch == '{':
                 hdr_end = j
                 break
-            elif ch == ';':
+            elif ch == ';' or ch == '}':
                 break
             j += 1
         if hdr_end is None:
             i = m.end()
             continue
         close = match_close(masked, hdr_end)
-        header = text[k:hdr_end]
-        yield header, hdr_end, close
-        if m.group(2) == 'mod':
-            yield from find_blocks(text, masked, hdr_end + 1, close, kinds)
-        i = close + 1
+        yield text[k:hdr_end], hdr_end, close
+        i = hdr_end + 1
 
 
 def find_fn_in(text, masked, start, end, name, nth=0):
